@@ -4,7 +4,8 @@ History monitor on real flow objects of every type (http, http+response, http+er
 udp, dns, dns+response).  A case is a random sequence of operations over a small population (the
 original flow plus up to two copies): edit (requests, responses, messages, metadata, markers,
 comments, errors, websocket data, optional connection fields -- through the public attributes, including
-*in-place* mutation of nested containers and optional sub-objects appearing / disappearing: response,
+*in-place* mutation of nested containers (headers, trailers, metadata, message lists, certificate lists -- also when they are
+present but EMPTY at backup / copy time) and optional sub-objects appearing / disappearing: response,
 websocket, error, trailers, certificate lists, sni, server address ...), backup, revert, copy, set_state
 from another flow.
 
@@ -54,7 +55,7 @@ ENGINE = "direct"
 TECHNIQUE = "model-based history monitor with an attribute-level observer"
 RULE = (
     "case = flow kind (http, http+resp, http+err, websocket, tcp, udp, dns, dns+resp) x a random sequence of 6-30 "
-    "operations (edit / backup / revert / copy / set_state from another flow) over the flow and up to 2 copies; edits include presence changes of optional sub-objects (response, websocket, error, trailers, connection fields); edits draw from small value pools so that "
+    "operations (edit / backup / revert / copy / set_state from another flow) over the flow and up to 2 copies; edits include presence changes of optional sub-objects (response, websocket, error, trailers, connection fields) and in-place edits of containers that were None / present-but-empty / non-empty at backup or copy time (trailers, headers, metadata, message lists, certificate lists); edits draw from small value pools so that "
     "no-op edits and edits that return to the backed-up value occur; distinct = (kind, set of edit families used, "
     "#backups, #reverts, #copies, #set_state, saw 'state equal to backup while backup present', saw revert-after-edit, saw edit-after-copy) "
     "signature; non-trivial = at least one backup or copy followed by an edit"
@@ -267,7 +268,59 @@ def e_http_headers(r, f):
         if len(m.headers.fields) > 8:
             m.headers.pop(name, None)
     else:
-        m.headers = http.Headers([(b"x-new", r.choice(HVALS).encode())])
+        m.headers = r.choice([http.Headers(), http.Headers([(b"x-new", r.choice(HVALS).encode())])])  # present but empty / non-empty
+
+
+def e_http_trailers(r, f):
+    """Trailers are None / present-but-empty / non-empty; when present they are edited IN PLACE (not re-assigned)."""
+    m = _msg(r, f, f.response is not None and r.random() < 0.5)
+    c = r.randrange(7)
+    if c == 0 or m.trailers is None:
+        m.trailers = r.choice([None, http.Headers(), http.Headers(), http.Headers([(b"t", b"1")])])
+        return
+    t = m.trailers
+    name = r.choice(["t", "x-checksum", "T"])
+    if c == 1:
+        t[name] = r.choice(HVALS)
+    elif c == 2:
+        t.add(name, r.choice(HVALS))
+        if len(t.fields) > 5:
+            t.clear()
+    elif c == 3:
+        t.insert(0, name.encode(), r.choice(HVALS).encode())
+        if len(t.fields) > 5:
+            t.clear()
+    elif c == 4:
+        t.pop(name, None)
+    elif c == 5:
+        t.clear()
+    else:
+        t.set_all(name, [r.choice(HVALS), "2"])
+
+
+def e_empty_containers(r, f):
+    """Container-valued fields become present-but-empty (a fresh empty object); later edits fill them in place."""
+    c = r.randrange(4)
+    if c == 0:
+        f.metadata = {}
+    elif c == 1:
+        (f.client_conn if r.random() < 0.5 else f.server_conn).certificate_list = []
+    elif c == 2:
+        conn = f.client_conn if r.random() < 0.5 else f.server_conn
+        if isinstance(conn.certificate_list, list) and len(conn.certificate_list) < 3:
+            conn.certificate_list.append(r.choice(some_certs()))  # in place
+        else:
+            conn.certificate_list = []
+    else:
+        if isinstance(f, http.HTTPFlow):
+            if f.websocket is not None:
+                f.websocket.messages = []
+            else:
+                f.request.headers = http.Headers()
+        elif isinstance(f, (tcp.TCPFlow, udp.UDPFlow)):
+            f.messages = []
+        elif isinstance(f, dns.DNSFlow):
+            (f.response or f.request).answers = []
 
 
 def e_http_body(r, f):
@@ -388,13 +441,13 @@ def e_dns(r, f):
         f.response.answers[0].ttl = r.choice([32, 60])
 
 
-COMMON = [("marked", e_marked), ("comment", e_comment), ("meta", e_meta_set), ("meta", e_meta_del), ("meta_nested", e_meta_nested), ("error", e_error), ("conn", e_conn)]
+COMMON = [("marked", e_marked), ("comment", e_comment), ("meta", e_meta_set), ("meta", e_meta_del), ("meta_nested", e_meta_nested), ("error", e_error), ("conn", e_conn), ("empty_containers", e_empty_containers)]
 
 
 def edits_for(f):
     ops = list(COMMON)
     if isinstance(f, http.HTTPFlow):
-        ops += [("http_line", e_http_line), ("http_headers", e_http_headers), ("http_headers", e_http_headers), ("http_body", e_http_body), ("http_response", e_http_response), ("ws_presence", e_ws_presence)]
+        ops += [("http_line", e_http_line), ("http_headers", e_http_headers), ("http_headers", e_http_headers), ("http_body", e_http_body), ("http_response", e_http_response), ("ws_presence", e_ws_presence), ("http_trailers", e_http_trailers), ("http_trailers", e_http_trailers)]
         if f.websocket is not None:
             ops += [("ws", e_ws)] * 3
     elif isinstance(f, (tcp.TCPFlow, udp.UDPFlow)):
@@ -430,6 +483,11 @@ def make_flow(kind, r):
         f.metadata["l"] = [1]
     if r.random() < 0.2:
         f.live = False
+    if isinstance(f, http.HTTPFlow) and r.random() < 0.35:
+        # trailers present from the start: empty (an h2 stream that ended with an empty trailing HEADERS frame) or filled
+        f.request.trailers = r.choice([http.Headers(), http.Headers([(b"t", b"1")])])
+        if f.response is not None:
+            f.response.trailers = r.choice([http.Headers(), http.Headers(), http.Headers([(b"t", b"1")])])
     return f
 
 
